@@ -298,3 +298,25 @@ def import_past_content(seed):
     r, o = rec.check(); d.append("check -> %s" % o["exit"])
     a.destroy()
     return rec, d
+
+
+def s2_zeroed_bad_chg(seed):
+    """C05, branch s2-zeroed-bad-chg of the repair logic (the goal TLC reaches on ArrayMC with template H1): a new file is recorded
+    by a sync that does not reach its stripes, on positions its disk never used (hash field = ZERO marker); it is lost together
+    with a synced file of another disk in the same stripes, more failures than parity levels: the second strategy (parity still
+    holds the state before the sync) rebuilds the old file with the new one taken as zeros; the new file must be reported
+    unrecoverable, never written as zeros and called recovered"""
+    a = arr.Array(arr.Conf(nd=2, np=1, copies=2), seed=seed)
+    a.write_file(0, "K", [1], mtime=11)
+    a.write_file(1, "C", [2, 3, 4], mtime=12)
+    rec = recorder.Recorder(a)
+    d = ["init K / C"]
+    r, o = rec.sync(); d.append("sync -> %s" % o["exit"])
+    a.write_file(0, "N", [5, 6], mtime=20); rec.env("add N on positions disk 0 never used"); d.append("add N")
+    a.clock += 10
+    r, o = rec.sync("-S", "0", "-B", "1"); d.append("sync -S 0 -B 1 (N recorded, its stripes not reached) -> %s" % o["exit"])
+    a.remove(0, "N"); a.remove(1, "C"); rec.env("lose N and C", damage=True); d.append("lose N and C")
+    r, o = rec.fix(); d.append("fix -> %s" % o["exit"])
+    r, o = rec.check(); d.append("check -> %s" % o["exit"])
+    a.destroy()
+    return rec, d
